@@ -610,3 +610,12 @@ META = {
                    "fb.embedded_alignment FAIL on the pinned tree (genuine defects, see report); their input classes are excluded by "
                    "-DVX_NO_THROWING_CTOR resp. -DVX_NO_OVERALIGNED (twins fb.*.nothrow prove).",
 }
+
+
+# ---- remaining any_sender bodies (Impl constructors, clone/move_into/clone_into, reset(Sender&&), factories, get_empty_vtable,
+# ---- placement predicates, end-to-end pipelines): second sub-agent ---------------------------------------------------------
+exec(open("/verif/specs/C18/fwd_spec.py").read())
+UNITS += FWD_UNITS
+for _k in ("trusted_base", "assumptions", "not_decided"):
+    META[_k] = list(META.get(_k, [])) + list(FWD_META.get(_k, []))
+STATIC = list(globals().get("STATIC", [])) + list(FWD_STATIC)
